@@ -683,9 +683,11 @@ def _copy_instances(tier):
     out = []
     for k in SPLINES + CONTAINERS:
         if k in CONTAINERS:
-            # (on the pinned tree the copy of a container cannot even be read: one instance per container class)
-            out.append(dict(kind=k, mut='translate', side='copy', state='filled'))
+            # (on the pinned tree the copy of a container cannot even be read: one instance per container class;
+            #  the mutators are ones that are healthy on containers, in-place transforms are not)
+            out.append(dict(kind=k, mut='add', side='copy', state='filled'))
             if tier == 'thorough':
+                out.append(dict(kind=k, mut='delta', side='orig', state='filled'))
                 out.append(dict(kind=k, mut='add', side='orig', state='empty'))
             continue
         if KINDS[k]['geo'] == 'Curve':
